@@ -752,6 +752,24 @@ func (data *Data) UpdateSchema(database string, retentionPolicy string, mst stri
 	}
 	msti.SchemaLock.Lock()
 	defer msti.SchemaLock.Unlock()
+	// refuse the whole request before touching the schema: a failed command must
+	// leave the catalogue as it was
+	added := make(map[string]int32, len(fieldToCreate))
+	for i := range fieldToCreate {
+		name, typ := fieldToCreate[i].GetFieldName(), fieldToCreate[i].GetFieldType()
+		if msti.Schema != nil {
+			if existVal, ok := (*msti.Schema)[name]; ok {
+				if int32(existVal.Typ) != typ {
+					return ErrFieldTypeConflict
+				}
+				continue
+			}
+		}
+		if t, ok := added[name]; ok && t != typ {
+			return ErrFieldTypeConflict
+		}
+		added[name] = typ
+	}
 	if msti.Schema == nil {
 		newSchema := NewCleanSchema(0)
 		msti.Schema = &newSchema
